@@ -9,6 +9,8 @@
 EXTENDS Auth, TLC, Json
 
 CONSTANTS Passwords,     \* non-empty passwords that may be configured for the user, e.g. {"p1", "p2"}
+          FirstPw,       \* one element of Passwords
+          StarPasswords, \* clear-text passwords that begin with '*' without being a hash: subset of {"s:short", "s:long", "s:nonhex"}
           OtherPw,       \* a password configured for another user only
           Salts,         \* salts; ServerSalt is the one of this connection
           ServerSalt,
@@ -19,16 +21,23 @@ CONSTANTS Passwords,     \* non-empty passwords that may be configured for the u
 VARIABLES phase, stored, plugin, resp
 vars == <<phase, stored, plugin, resp>>
 
-Credentials == {Clear("")} \cup {Clear(p) : p \in Passwords} \cup {Hashed(p) : p \in Passwords}
+Credentials == {Clear("")} \cup {Clear(p) : p \in Passwords \cup StarPasswords} \cup {Hashed(p) : p \in Passwords}
 LiteralOf(p) == "*" \o p          \* the '*'-hash text of p used as a password
 RespPw == Passwords \cup {OtherPw} \cup {LiteralOf(p) : p \in Passwords}
-Responses == {Empty} \cup {Tok(m, s, pw, mod) : m \in Methods, s \in Salts, pw \in RespPw, mod \in Mods}
+(* modified proofs are tried for this connection's salt; a proof for another salt (a replay) and the proofs of the *)
+(* '*'-looking clear texts are tried unmodified                                                                  *)
+Responses == {Empty} \cup {Tok(m, ServerSalt, pw, mod) : m \in Methods, pw \in RespPw, mod \in Mods}
+                     \cup {Tok(m, s, pw, "none") : m \in Methods, s \in Salts, pw \in RespPw \cup StarPasswords}
+(* the '*'-looking clear texts are configured alone or next to the first password in either form *)
+IsStar(c) == c.pw \in StarPasswords
+Partner(c) == c \in {Clear(FirstPw), Hashed(FirstPw)}
 
 Init == phase = "config" /\ stored = <<>> /\ plugin = "" /\ resp = Empty
 
 AddCredential == /\ phase = "config" /\ Len(stored) < MaxStored
                  /\ \E c \in Credentials :
                        /\ \A i \in 1..Len(stored) : stored[i] # c
+                       /\ \A i \in 1..Len(stored) : (IsStar(c) => Partner(stored[i])) /\ (IsStar(stored[i]) => Partner(c))
                        /\ stored' = Append(stored, c)
                  /\ UNCHANGED <<phase, plugin, resp>>
 Hello == /\ phase = "config" /\ Len(stored) >= 1
